@@ -86,6 +86,8 @@ def generate(rng, tier, idx):
                             'mt': [rng.choice(['older', 'equal', 'nss', 'newer']), rng.choice([1, 2, 600, 86400])]})
         rnd = {'ops': ops, 'advance_ns': rng.choice([1_000, 900_000_000, 1_000_000_000, 5_000_000_000,
                                                      3_600_000_000_000, 86_400_000_000_000])}
+        if rng.random() < 0.3:
+            rnd['explicit_t'] = True       # --timestamp given explicitly along with --incremental
         if rng.random() < 0.12:
             # clock fault: the wall clock is stepped BACK (NTP correction, Manifest produced on a host whose clock runs
             # ahead): the previous TIMESTAMP then lies in the future of the running update
@@ -359,10 +361,10 @@ def execute(sc):
                             _o['os.rename'](aside, os.path.join(root, van))
                             counters['files_vanished_during_scan'] = counters.get('files_vanished_during_scan', 0) + 1
                             seam.fired['file-vanished-during-scan'] = seam.fired.get('file-vanished-during-scan', 0) + 1
-                rA, ssA = with_vanish('A', A, lambda: upd(A, ['-i'], opi))
+                rA, ssA = with_vanish('A', A, lambda: upd(A, ['-i'] + (['-t'] if rnd.get('explicit_t') else []), opi))
                 opi += 1
                 seam.hook = hook_scanstart
-                rB, ssB = with_vanish('B', B, lambda: upd(B, [], opi))
+                rB, ssB = with_vanish('B', B, lambda: upd(B, (['-t'] if rnd.get('explicit_t') else []), opi))
                 opi += 1
                 if inter and fired['done']:
                     # B receives the same modification between the rounds
